@@ -905,7 +905,7 @@ func (rn *runner) dial(spec *quic.QUICSpec) (res dialResult) {
 	trace := &recTrace{}
 	quic.VerifTakeOwnOverride()
 	conf := &quic.Config{Tracer: func(context.Context, bool, quic.ConnectionID) qlogwriter.Trace { return trace }}
-	ctx, cancel := context.WithTimeout(context.Background(), 10*time.Second)
+	ctx, cancel := context.WithTimeout(context.Background(), 40*time.Second)
 	done := make(chan string, 1)
 	go func() {
 		defer func() {
@@ -936,7 +936,7 @@ func (rn *runner) dial(spec *quic.QUICSpec) (res dialResult) {
 	gci := clienthellod.GatherClientInitialsWithDeadline(time.Now().Add(time.Minute))
 	chdOK := true
 	frameSet := map[uint64]bool{}
-	deadline := time.Now().Add(5 * time.Second)
+	deadline := time.Now().Add(20 * time.Second)
 	buf := make([]byte, 4096)
 	for {
 		rn.server.SetReadDeadline(time.Now().Add(50 * time.Millisecond))
@@ -984,6 +984,18 @@ func (rn *runner) dial(spec *quic.QUICSpec) (res dialResult) {
 			break
 		}
 	}
+	// Only the first flight is a fingerprint: if a datagram was lost or a retransmission slipped in, the
+	// packet numbers are not first, first+1, … and frame types / fingerprint are not reported.
+	firstFlight := true
+	for i, pn := range asm.pns {
+		if pn != int64(spec.InitialPacketSpec.InitPacketNumber)+int64(i) {
+			firstFlight = false
+		}
+	}
+	if !firstFlight {
+		chdOK = false
+		frameSet = map[uint64]bool{}
+	}
 	for t := range frameSet {
 		res.frames = append(res.frames, t)
 	}
@@ -1007,6 +1019,7 @@ func (rn *runner) dial(spec *quic.QUICSpec) (res dialResult) {
 // reassembler decrypts client Initial packets (RFC 9001 §5) and collects their CRYPTO frames.
 type reassembler struct {
 	chunks map[uint64][]byte
+	pns    []int64 // packet numbers of the Initial packets seen, in arrival order
 }
 
 func (a *reassembler) addDatagram(dg []byte) (scid []byte, frameTypes []uint64, perr string) {
@@ -1045,6 +1058,7 @@ func (a *reassembler) addDatagram(dg []byte) (scid []byte, frameTypes []uint64, 
 		if err != nil {
 			return nil, nil, "E:open"
 		}
+		a.pns = append(a.pns, int64(pn))
 		fts, ok := a.frames(payload)
 		if !ok {
 			return nil, nil, "E:frames"
